@@ -46,11 +46,52 @@ def run_scenario(job):
                   pd.ProtocolDispatcher.stop, pd.ProtocolDispatcher._dispatcher_thread_function]
     ev = []
     rec = {"id": sid, "ev": ev, "seed": seed, "policy": policy, "cfg": [ncallers, nreq, wrap, reconnect]}
+    st = {"base": None, "cur": {}}
+
+    def rc_of_tag(t):
+        return ((t - 100000) // 100 - 1) * nreq + t % 100 + 1
+
+    def norm(x):
+        return (x - st["base"]) % (1 << 32)
+
+    def th_c():
+        nm = simrt.cur_sched().cur.name
+        return int(nm[6:]) if nm.startswith("caller") and nm[6:].isdigit() else None
+
+    def rc_now():
+        c = th_c()
+        return None if c is None else (c - 1) * nreq + st["cur"].get(c, 0) + 1
+
+    def ex_sys(fr, ret):
+        r_ = rc_now()
+        return None if r_ is None else {"c": r_, "sys": norm(ret)}
+
+    def ex_c(fr, ret):
+        r_ = rc_now()
+        return None if r_ is None else {"c": r_}
+
+    def ex_take(fr, ret):
+        m = fr.f_locals["message"]
+        h = m.header
+        if h.s_type.value != 0:
+            return None
+        if h.system >= 0x50000 and h.function == 1 and h.system < 0x60000:
+            return {"id": h.system - 0x50000}
+        t = tag_of(bytes(m.data))
+        return {"c": rc_of_tag(t)} if t is not None else None
+
+    import secsgem.hsms.protocol as hp
+    event_funcs = [(cp.Protocol.get_next_system_counter, "Sys", "return", ex_sys),
+                   (cp.Protocol._get_queue_for_system, "Reg", "call", ex_c),
+                   (cp.Protocol._remove_queue, "Del", "call", ex_c),
+                   (hp.HsmsProtocol._on_connection_message_received, "Take", "call", ex_take)]
 
     def main(s):
         rng = random.Random(seed ^ 0xC06)
         ep = hsmsrun.Ep(mode="passive", kind="protocol")
         proto = ep.protocol
+        st["base"] = proto._system_counter
+        s.put_hook = lambda q, item: s.emit("QPut") if q in proto._response_queues.values() else None
         outstanding = {}   # tag -> sys (as seen on the wire)
         unsol = [0]
         answered = set()
@@ -60,8 +101,13 @@ def run_scenario(job):
             h = d["message"].header
             mid = f"u{h.system - 0x50000}" if h.system >= 0x50000 and h.function == 1 else f"t{tag_of(bytes(d['message'].data))}"
             ev.append({"e": "DBegin", "id": mid})
+            if mid.startswith("u"):
+                s.emit("DBegin", id=int(mid[1:]))
+            else:
+                s.emit("DBegin", c=rc_of_tag(int(mid[1:])))
             simrt.time_shim.sleep(0.001)      # the application takes a moment: overlap becomes visible
             ev.append({"e": "DEnd", "id": mid})
+            s.emit("DEnd")
 
         proto.events.message_received += on_msg
 
@@ -70,11 +116,13 @@ def run_scenario(job):
                 if fr.get("stype") == 0 and fr["s"] == 1 and fr["f"] == 3:
                     t = tag_of(fr["body"])
                     ev.append({"e": "Out", "sys": format(fr["system"], "08x"), "tag": f"t{t}"})
+                    s.emit("Send", sys=norm(fr["system"]))
                     outstanding[t] = fr["system"]
                     if instant and rng_i.random() < 0.6:
                         # a fast peer: the reply is on its way before the sending thread has even returned from the send
                         answered.add(t)
                         ev.append({"e": "InReply", "sys": format(fr["system"], "08x"), "tag": f"t{t}"})
+                        s.emit("InReply", sys=norm(fr["system"]), c=rc_of_tag(t))
                         ep.link.feed(link.hsms_frame(stype=0, system=fr["system"], session=0, stream=1, function=4, body=body_tag(t)))
 
         def select():
@@ -94,10 +142,12 @@ def run_scenario(job):
         def caller(c):
             for k in range(nreq):
                 t = 100000 + c * 100 + k
+                st["cur"][c] = k
                 ev.append({"e": "Call", "c": c, "tag": f"t{t}"})
                 rsp = proto.send_and_waitfor_response(sf.SecsS01F03([t]))
                 got = "none" if rsp is None else f"t{tag_of(bytes(rsp.data))}"
                 ev.append({"e": "Ret", "c": c, "tag": f"t{t}", "got": got})
+                s.emit("Ret", c=rc_of_tag(t), got=0 if rsp is None else rc_of_tag(tag_of(bytes(rsp.data))))
             returned[0] += 1
 
         ths = [simrt.Thread(target=caller, args=(c,), name=f"caller{c}") for c in range(1, ncallers + 1)]
@@ -117,6 +167,7 @@ def run_scenario(job):
                 if r < 0.55:
                     answered.add(t)
                     ev.append({"e": "InReply", "sys": format(outstanding[t], "08x"), "tag": f"t{t}"})
+                    s.emit("InReply", sys=norm(outstanding[t]), c=rc_of_tag(t))
                     ep.link.feed(link.hsms_frame(stype=0, system=outstanding[t], session=0, stream=1, function=4,
                                                  body=body_tag(t)))
                     acted = True
@@ -125,6 +176,7 @@ def run_scenario(job):
             if rng.random() < 0.5:
                 unsol[0] += 1
                 ev.append({"e": "InOther", "id": f"u{unsol[0]}"})
+                s.emit("InOther", id=unsol[0])
                 ep.link.feed(link.hsms_frame(stype=0, system=0x50000 + unsol[0], session=0, stream=1, function=1, wbit=True))
                 acted = True
             if reconnect and not did_reconnect and rounds >= 2 and rng.random() < 0.4:
@@ -137,6 +189,7 @@ def run_scenario(job):
                 if not okc:
                     raise Machinery("close did not finish in C06 scenario")
                 ev.append({"e": "Reconnect"})
+                s.emit("Reconnect")
                 for t in list(outstanding):
                     if t not in answered:
                         never.add(t)
@@ -151,6 +204,7 @@ def run_scenario(job):
         for t in sorted(never):
             if rng.random() < 0.5 and ep.cs == "SEL":
                 ev.append({"e": "InReply", "sys": format(outstanding[t], "08x"), "tag": f"t{t}"})
+                s.emit("InReply", sys=norm(outstanding[t]), c=rc_of_tag(t))
                 ep.link.feed(link.hsms_frame(stype=0, system=outstanding[t], session=0, stream=1, function=4, body=body_tag(t)))
         s.run_until(lambda: False, max_dt=5.0)
         rec["returned"] = returned[0]
@@ -158,13 +212,76 @@ def run_scenario(job):
     randint = (lambda a, b: b - 1) if wrap else None
     s = simrt.run(main, seed=seed, policy=policy, switch_prob=0.3, line_funcs=line_funcs, max_vtime=1e5,
                   wall_timeout=120, randint=randint, pct_depth=3, pct_horizon=400,
-                  wake_lag=(("caller",), 0.4, 0.02) if instant else None)
+                  wake_lag=(("caller",), 0.4, 0.02) if instant else None, event_funcs=event_funcs)
     rec["outcome"] = s.outcome
+    rec["tev"] = [{"e": e["e"], "c": e.get("c", 0), "sys": e.get("sys", 0), "id": e.get("id", 0), "got": e.get("got", 0)} for e in s.events]
+    bad_ex = [e for e in s.events if e.get("extract_error")]
+    if bad_ex:
+        rec.setdefault("errors", []).append(("extract", bad_ex[0]["extract_error"]))
     if s.outcome != "done":
         rec["wedge"] = s.wedge_info
     if s.errors:
         rec["errors"] = [e[:2] for e in s.errors[:2]]
     return rec
+
+
+def trace_leg(ctx, wd, recs):
+    """Leg T: every recorded execution must be a behaviour of the implementation-shaped model Transactions."""
+    f = wd / "tx_event_traces.json"
+    f.write_text(json.dumps([{"id": r["id"], "ev": r["tev"]} for r in recs]))
+    nreq_max = max(max((e["c"] for e in r["tev"]), default=1) for r in recs)
+    m = max(max((e["sys"] for e in r["tev"]), default=1) for r in recs) + 2
+    cfg = (f"SPECIFICATION TSpec\nCONSTANTS AtomicCounter = TRUE\n SingleDispatcher = TRUE\n LateReplies = TRUE\n NC = {nreq_max}\n NU = 100000\n"
+           f" M = {m}\n MaxConn = 2\nCONSTRAINT Progress\nINVARIANT DistinctOutstanding\nINVARIANT OwnReplyOnly\nINVARIANT OneAtATime\n"
+           "INVARIANT InOrderOnce\n")
+    rt = tlc.run("TransactionsTrace", cfg_text=cfg, workdir=wd, workers=4, env={"TRACE_FILE": str(f)}, what="tx_trace", coverage=False,
+                 deadlock=False, timeout=1800, expect_error=True)
+    best = {}
+    for a in rt.tagged("AT"):
+        best[a["id"]] = max(best.get(a["id"], 0), a["l"])
+    if rt.error_kind is not None:
+        ctx.violation({"check": "tx-trace", "clause": "invariant-on-recorded-execution", "tlc_error": rt.error_kind, "name": rt.error_name,
+                       "what": f"TLC: {rt.error_kind} {rt.error_name} violated on a recorded execution of the transaction layer"})
+    ctx.tlc_runs.append({"spec": "TransactionsTrace.tla", "what": f"validation of {len(recs)} recorded executions against Transactions",
+                         "distinct_states": rt.distinct, "wall_s": round(rt.wall, 1)})
+    nev = 0
+    for r in recs:
+        n = len(r["tev"])
+        nev += n
+        at = best.get(r["id"], 0)
+        if at != n + 1:
+            bad = r["tev"][at - 1] if 1 <= at <= n else None
+            ctx.violation({"check": "tx-trace", "clause": "execution-is-not-a-behaviour-of-Transactions", "event": bad, "at": at, "of": n,
+                           "before": r["tev"][max(0, at - 6):at - 1], "cfg": r["cfg"], "sched_seed": r["seed"], "policy": r["policy"],
+                           "what": f"recorded execution {r['cfg']} ({r['policy']}): event {at} of {n} {bad} is not allowed by Transactions "
+                                   f"after {[e['e'] for e in r['tev'][max(0, at - 5):at - 1]]}"})
+    # mutants of an accepted execution must be rejected
+    base = next((r for r in recs if best.get(r["id"], 0) == len(r["tev"]) + 1 and any(e["e"] == "QPut" for e in r["tev"])), None)
+    if base is None and ctx.violations:
+        return          # nothing was accepted (reported above): no execution to derive mutants from
+    if base is None:
+        raise Machinery("no accepted execution with a routed reply to derive mutants from")
+    tev = base["tev"]
+    ireg = next(i for i, e in enumerate(tev) if e["e"] == "Reg")
+    isend = next(i for i, e in enumerate(tev) if e["e"] == "Send" and e["sys"] == next(x["sys"] for x in tev if x["e"] == "Sys" and x["c"] == tev[ireg]["c"]))
+    iret = next(i for i, e in enumerate(tev) if e["e"] == "Ret" and e["got"] != 0)
+    m1 = list(tev)
+    m1.insert(isend, m1.pop(ireg))                                     # queue registered after the request was written
+    m1[ireg:isend + 1] = [x for x in tev[ireg + 1:isend + 1]] + [tev[ireg]]
+    m2 = [dict(e, got=(e["got"] % nreq_max) + 1) if i == iret else e for i, e in enumerate(tev)]      # somebody else's reply
+    m3 = [e for i, e in enumerate(tev) if e["e"] != "QPut" or i != next(j for j, x in enumerate(tev) if x["e"] == "QPut")]
+    fm = wd / "tx_mutants.json"
+    fm.write_text(json.dumps([{"id": k, "ev": mm} for k, mm in ((1, m1), (2, m2), (3, m3))]))
+    rm = tlc.run("TransactionsTrace", cfg_text=cfg, workdir=wd, workers=1, env={"TRACE_FILE": str(fm)}, what="tx_trace_mutants", coverage=False,
+                 deadlock=False, timeout=600, expect_error=True)
+    bm = {}
+    for a in rm.tagged("AT"):
+        bm[a["id"]] = max(bm.get(a["id"], 0), a["l"])
+    for k, mm in ((1, m1), (2, m2), (3, m3)):
+        if bm.get(k, 0) == len(mm) + 1 and rm.error_kind is None:
+            raise Machinery(f"TransactionsTrace accepted mutant {k} of a recorded execution: the binding lost its teeth")
+    ctx.extra["tx_trace_events"] = nev
+    ctx.extra["tx_trace_mutants_rejected"] = 3
 
 
 def run(ctx: Ctx):
@@ -207,6 +324,7 @@ def run(ctx: Ctx):
                            "policy": r["policy"], "reconnect": r["cfg"][3], "events": r["ev"][: max(v["at"], 1) + 2][-40:],
                            "what": f"TxMon clause '{v['clause']}' at event {v['at']} "
                                    f"({r['ev'][v['at'] - 1] if v['at'] else 'end of run'}); callers={r['cfg'][0]}"})
+    trace_leg(ctx, wd, recs)
     ctx.rule = ("scenarios = (callers 2-4, 1-2 requests each, counter start incl. wrap-around, optional reconnect) x peer behaviour "
                 "(reply order/lateness/omission, instant replies sent from inside the peer's receive of the request while the requesting thread is slow to resume, unsolicited primaries) x thread schedule (PCT depth 3 / random / fifo with line-level "
                 "preemption in the counter, queue and dispatcher code); non-trivial = at least two callers received replies")
